@@ -18,11 +18,24 @@ package sched
 
 import (
 	"fmt"
+	"os"
 	"reflect"
 	"runtime"
+	"runtime/debug"
 	"sort"
+	"strconv"
 	"time"
 )
+
+// stackAt (VERIF_SCHED_STACKAT=n, debugging aid) prints the stack of the
+// thread that reaches choice point n.
+var stackAt = func() int {
+	n, err := strconv.Atoi(os.Getenv("VERIF_SCHED_STACKAT"))
+	if err != nil {
+		return -1
+	}
+	return n
+}()
 
 // Op describes a pending operation of a thread.
 type Op struct {
@@ -63,6 +76,11 @@ type S struct {
 	Points   []Point
 	Steps    int
 	MaxSteps int
+
+	// the operation granted last (CoalesceReads)
+	lastT    *thread
+	lastKind string
+	lastObj  any
 
 	Deadlock  bool
 	Horizon   bool
@@ -208,10 +226,26 @@ func (s *S) Point(op *Op) {
 }
 
 func (s *S) point(t *thread, op *Op) {
+	if CoalesceReads && op.Kind == "rlock" && s.lastT == t && s.lastKind == "rlock" && s.lastObj == op.Obj && (op.Enabled == nil || op.Enabled()) {
+		return
+	}
 	t.pending = op
 	s.schedule(t, false)
 	t.pending = nil
+	s.lastT, s.lastKind, s.lastObj = t, op.Kind, op.Obj
 }
+
+// CoalesceReads, when set by a harness, makes a read-lock acquisition no
+// scheduling point when the last operation the scheduler granted was a
+// read-lock acquisition of the same lock by the same thread: a run of
+// read-locked sections of one thread on one lock is one block, however many
+// sections it has. (Needed where the number of such sections depends on
+// nondeterminism the harness does not own - the evaluator's field sorter
+// compares labels through the read-locked label index and its number of
+// comparisons depends on Go's map iteration order. Every explored
+// interleaving is still a real one; interleavings that put another thread's
+// operation between two such sections are not explored.)
+var CoalesceReads bool
 
 func enabled(t *thread) bool {
 	if t.done {
@@ -234,6 +268,7 @@ func (s *S) abort() {
 // schedule picks the next thread. from is the calling thread (parked unless
 // chosen again); exiting is true when from has just finished.
 func (s *S) schedule(from *thread, exiting bool) {
+	s.lastT = nil
 	s.Steps++
 	if s.Steps > s.MaxSteps {
 		s.Horizon = true
@@ -290,6 +325,9 @@ func (s *S) schedule(from *thread, exiting bool) {
 			}
 			desc += fmt.Sprintf("t%d:%s ", t.id, k)
 		}
+		if stackAt >= 0 && idx == stackAt {
+			fmt.Fprintf(os.Stderr, "sched: point %d [%s]\n%s\n", idx, desc, debug.Stack())
+		}
 		if idx < len(s.Expect) && s.Expect[idx] != desc && s.Diverged == "" {
 			s.Diverged = fmt.Sprintf("point %d: expected [%s] got [%s]", idx, s.Expect[idx], desc)
 		}
@@ -324,6 +362,7 @@ func (s *S) Choose(kind string, n int) int {
 	if n <= 1 {
 		return 0
 	}
+	s.lastT = nil
 	idx := len(s.Points)
 	choice := 0
 	if idx < len(s.prefix) {
